@@ -127,12 +127,22 @@ def api_search(chk, n_cases):
                                 cutoff_type=rng.choice(["exponential", "gaussian"]), temperature=rng.choice([0.0, 0.5]))
         op = rng.choice([0.5 * sz, 0.5 * sx + 0.2 * sz, np.diag([1.0, 1.0]) * 0.3 + 0.5 * sy])
         bath = oqupy.Bath(op, corr)
-        kind = rng.choice(["const", "td", "lindblad"])
+        kind = rng.choice(["const", "td", "lindblad", "pulse", "even"]) if it >= 2 else ["pulse", "even"][it]
         h0 = 0.4 * sx + 0.3 * sz
+        if kind == "even":
+            start = -n * dt / 2          # window symmetric about the centre of an even pulse
         if kind == "const":
             sysm = oqupy.System(h0, gammas=[0.1], lindblad_operators=[oqupy.operators.sigma("-")]) if rng.random() < 0.5 else oqupy.System(h0)
         elif kind == "td":
             sysm = oqupy.TimeDependentSystem(lambda t: h0 + 0.2 * np.sin(t) * sy)
+        elif kind == "pulse":
+            # a drive switched on and off again inside the window: same generator at the first and the last time
+            ta, tb = start + 0.8 * dt, start + (n - 0.8) * dt
+            sysm = oqupy.TimeDependentSystem(lambda t: h0 + (0.6 * sy if ta < t < tb else 0.0 * sy),
+                                             gammas=[lambda t: 0.1 if not (ta < t < tb) else 0.3], lindblad_operators=[lambda t: oqupy.operators.sigma("-")])
+        elif kind == "even":
+            sysm = oqupy.TimeDependentSystem(lambda t: h0 + 0.6 * np.exp(-4 * t * t) * sy,
+                                             gammas=[lambda t: 0.1 + 0.2 * np.cos(3 * t)], lindblad_operators=[lambda t: oqupy.operators.sigma("-")])
         else:
             sysm = oqupy.TimeDependentSystem(lambda t: h0, gammas=[lambda t: 0.1 + 0.05 * t], lindblad_operators=[lambda t: oqupy.operators.sigma("-")])
         rho0 = oqupy.operators.spin_dm(rng.choice(["x+", "z-", "y+"]))
